@@ -66,6 +66,11 @@ def make_service(stats, name):
 
         def exposed_bye(self):
             return "bye"
+
+        def exposed_nap(self, token, d):
+            import rpyc.lib
+            rpyc.lib.time.sleep(d)          # virtual time under the scheduler
+            return ("ok", token)
     return Svc
 
 
@@ -74,7 +79,7 @@ def expected(kind, token, depth=0):
         return ("ok", token)
     if kind == "big":
         return ("ok", token, b"z" * 5000)
-    if kind == "push":
+    if kind in ("push", "nap"):
         return ("ok", token)
     if kind == "nest":
         v = ("leaf", token)
@@ -143,6 +148,19 @@ class Run(object):
             r = got[1]
             if w == "peer_not_serving":
                 return
+            if w == "two_waiters":
+                # two threads of this side wait on the connection at once: one polls holding the receive lock, the other
+                # waits to be notified; whatever ends the connection must end BOTH waits
+                state = dict(done=False)
+
+                def second():
+                    try:
+                        self.req("nap", "w2", lambda: r.nap("w2", 2.0))
+                    finally:
+                        state["done"] = True
+                self.sched.spawn(second, name="A2")
+                self.req("nap", "w1", lambda: r.nap("w1", 1.0))
+                self.sched.block(lambda: state["done"], None, ("join-A2",))
             if w == "sync":
                 for i in range(3):
                     self.req("echo", "s%d" % i, lambda i=i: r.echo("s%d" % i))
@@ -282,13 +300,13 @@ class Run(object):
         if not faulted and self.workload not in ("b_closes", "both_close"):
             done = {t for _, t, out, _ in self.outcomes if out[0] == "value"}
             want = {"sync": {"s0", "s1", "s2", "sb"}, "async": {"a0", "a1", "a2"}, "nested": {"n1", "n2"}, "refs": {"k0", "k1", "r1"},
-                    "push": {"p1", "p2"}, "before_closed": {"c1"}}.get(self.workload, set())
+                    "push": {"p1", "p2"}, "before_closed": {"c1"}, "two_waiters": {"w1", "w2"}}.get(self.workload, set())
             if not want <= done:
                 bad.append(("request-failed-without-fault", "requests %r did not complete in a fault-free run" % (sorted(want - done),)))
         return bad, faulted
 
 
-WORKLOADS = ["sync", "async", "nested", "refs", "push", "b_closes", "before_closed", "peer_not_serving"]
+WORKLOADS = ["sync", "async", "nested", "refs", "push", "b_closes", "before_closed", "peer_not_serving", "two_waiters"]
 
 
 def record(ctx, r, desc, wit):
